@@ -152,12 +152,12 @@ IsMissing(o)    == o.k = "err" /\ o.cls \subseteq {"MissingNode", "MissingChild"
 \*  metric : configuration                     (public, constant per run)
 \*  setbuf : <<n, c, t>> -> [ack, p]  parked set commands        (hidden)
 \*  asked  : set of node ids with an outstanding presentation request (hidden)
-\*  held   : set of messages held for a sleeping destination (hidden; C12 option)
+\*  held   : message -> number of copies held for a sleeping destination (a bag; hidden; C12 option)
 
 KeyOf(m) == <<m.n, m.c, m.t>>
 ParkedOf(setbuf, n) == {k \in DOMAIN setbuf : k[1] = n}
 ParkedMsg(setbuf, k) == Msg(k[1], k[2], C_SET, setbuf[k].ack, k[3], setbuf[k].p)
-HeldOf(held, n) == {m \in held : m.n = n}
+HeldOf(held, n) == {m \in DOMAIN held : m.n = n}
 
 Max(S) == CHOOSE x \in S : \A y \in S : y <= x
 FreeIds(nodes) == (1 .. MaxNodeId) \ DOMAIN nodes
@@ -332,7 +332,7 @@ Recv(s, ev, ch) ==
                ELSE b.out
     IN  [nodes  |-> b.nodes, ver |-> b.ver, proto |-> b.proto,
          setbuf |-> IF doFlush THEN Without(s.setbuf, ch.rel) ELSE s.setbuf,
-         held   |-> IF doFlush THEN s.held \ ch.heldRel ELSE s.held,
+         held   |-> IF doFlush THEN Without(s.held, ch.heldRel) ELSE s.held,
          asked  |-> IF presOk THEN b.asked \cup {m.n} ELSE b.asked,
          out    |-> out,
          react  |-> b.react \o q,
@@ -340,6 +340,7 @@ Recv(s, ev, ch) ==
          presOk |-> presOk,
          rel    |-> IF doFlush THEN {ParkedMsg(s.setbuf, k) : k \in ch.rel} \cup ch.heldRel ELSE {},
          relFail |-> IF doFlush THEN {ParkedMsg(s.setbuf, k) : k \in ch.relFail} \cup ch.heldFail ELSE {},
+         relCount |-> IF doFlush THEN [hm \in ch.heldRel |-> s.held[hm]] ELSE EmptyFn,   \* copies of each held message released
          viol   |-> (IF doFlush /\ ~FlushValid(s, m.n, ch) THEN {"flush"} ELSE {})
                     \cup (IF m.cmd = C_INTERNAL /\ m.t = I_ID_REQUEST /\ m.t \in InternalTypes(s.proto)
                              /\ ~IdValid(s, ch.id) THEN {"id"} ELSE {})]
@@ -347,7 +348,7 @@ Recv(s, ev, ch) ==
 Quiet(s, out) ==
     [nodes |-> s.nodes, ver |-> s.ver, proto |-> s.proto, setbuf |-> s.setbuf, held |-> s.held,
      asked |-> s.asked, out |-> out, react |-> <<>>, pres |-> <<>>, presOk |-> FALSE,
-     rel |-> {}, relFail |-> {}, viol |-> {}]
+     rel |-> {}, relFail |-> {}, relCount |-> EmptyFn, viol |-> {}]
 
 (* a line the codec rejects: invalid message, nothing else happens *)
 RecvBad(s) == Quiet(s, Err({"InvalidMessage"}, -1))
@@ -364,7 +365,7 @@ Send(s, ev, ch) ==
             ELSE IF ch.sendFail THEN Quiet(s, Err({"Transport"}, -1))
             ELSE [Quiet(s, Done) EXCEPT !.react = <<m>>]
         ELSE  \* other commands: written now | held for a sleeping destination | library error
-            IF ch.alt = "hold" /\ ev.buf /\ sleeping THEN [Quiet(s, Done) EXCEPT !.held = s.held \cup {m}]
+            IF ch.alt = "hold" /\ ev.buf /\ sleeping THEN [Quiet(s, Done) EXCEPT !.held = Upd(s.held, m, (IF m \in DOMAIN s.held THEN s.held[m] ELSE 0) + 1)]
             ELSE IF ch.alt = "error" \/ ch.sendFail THEN Quiet(s, Err(LibClasses, -1))
             ELSE [Quiet(s, Done) EXCEPT !.react = <<m>>]
 
